@@ -130,6 +130,9 @@ impl Property for C06 {
             Tier::Thorough => Budget { cases: 100_000, shards: 16, min_len: 24, max_len: 220 },
         }
     }
+    fn fuzz_targets(&self) -> Vec<(&'static str, u64, usize)> {
+        vec![("prop", 200_000, 220)]
+    }
     fn rule(&self) -> String {
         "bytes -> hotspot QPS/Reject rule (q 0..6, burst 0..4, d 1..3 s, positional or keyed parameter, per-value overrides 0..6), 1-4 values, 3-60 requests (gap menu 0, 1, d-1ms, d, d+1ms, 2d+3, d/2, free; batch 1..4); clauses: (i) bound q_v+b+q_v(t-first)/d on admitted tokens per value, (ii) no rejection while a lazily refilled reference bucket (a lower bound on any conforming bucket) still holds the batch, q_v=0 and batch>q_v+b always rejected, (iii) metamorphic: the decisions of one value are unchanged when the other values' requests are deleted, (iv) metamorphic: an overridden value behaves as under threshold x without overrides, the others as under the rule without overrides; non-trivial = >= 2 values interleaved, >= 1 refill gap (> d) and >= 1 rejection; distinct = distinct decoded cases".into()
     }
